@@ -79,6 +79,10 @@ func (d *Decoder) unmarshal(val reflect.Value, tagType byte) error {
 	if u != nil {
 		return u.UnmarshalNBT(tagType, d.r)
 	}
+	if val.Kind() == reflect.Interface && val.NumMethod() > 0 {
+		// the values decoded into interfaces (int8, string, []any, map[string]any, ...) have no methods
+		return errors.New("cannot decode into a nil " + val.Type().String())
+	}
 
 	switch tagType {
 	default:
